@@ -17,6 +17,7 @@ RULES = {
     'C10.R5': '2-agent embedding: hospital j = project j offered by lecturer j with the same lower/upper quota and target = upper quota',
     'C10.R7': 'no rejection of grammar-conforming files: the reader never raises on an empty preference list (agents nobody ranks have empty second-side lists)',
     'C10.R6': 'derived data: lecturer of a pair = lecturer of its project; indices = ids - 1; project/lecturer/rank lists are scatters of all pairs (C01.R4, C03.R4)',
+    'C10.R8': 'the model is a function of the file text and the two format options only: import_model writes and consults no module-level state (no cache keyed by file name)',
 }
 
 E = lambda c, m: A(S(c), m)
@@ -263,6 +264,44 @@ def run(rep, repo, tier):
             rep.count('specialisations')
     check_cost_readers(rep, repo)
     check_derived(rep, repo)
+    check_import_pure(rep, repo)
+
+
+def check_import_pure(rep, repo):
+    """R8: mutation events of import_model rooted at a module global, and reads of module-level mutable containers"""
+    from ..effects import Effects
+    f = repo.function('import_model', required=False)
+    if f is None:
+        rep.inconclusive('C10.R8', 'matchingproblems/solver/fileIO.py', 'import_model exists', got='not found')
+        return
+    E_ = Effects(repo)
+    evs = E_.analyse(f)
+    reach = E_.reachable([f])
+    bad = [ev for ev in evs if ev.prov[1].startswith('global:') and not ev.prov[1].startswith('global:<')]
+    seen = set()
+    for ev in bad:
+        if ev.loc in seen:
+            continue
+        seen.add(ev.loc)
+        rep.fail('C10.R8', f.where, 'reading a file changes no module-level state', got=ev.describe(), want='a fresh Model per call, nothing remembered between calls',
+                 construct='module state %s: %s' % (ev.prov[1], ev.text()), loc=ev.loc)
+    # module-level mutable containers consulted by the import slice
+    mutable_globals = {}
+    for rel, tree in repo.trees.items():
+        if not rel.startswith(repo.rel('solver')):
+            continue
+        for n in tree.body:
+            if isinstance(n, ast.Assign) and len(n.targets) == 1 and isinstance(n.targets[0], ast.Name) and isinstance(n.value, (ast.Dict, ast.List, ast.Set)) \
+                    and not (n.value.keys if isinstance(n.value, ast.Dict) else n.value.elts):
+                mutable_globals[n.targets[0].id] = rel
+    reads = []
+    for g in reach:
+        for x in ast.walk(g.node):
+            if isinstance(x, ast.Name) and x.id in mutable_globals and mutable_globals[x.id] == g.relpath and x.id not in g.params:
+                reads.append('%s:%d %s' % (g.relpath, x.lineno, x.id))
+    rep.check(not reads or bool(bad), 'C10.R8', f.where, 'the import consults no module-level container that outlives the call', got=reads[:3] or 'none', construct='module-level container consulted: ' + (reads[0].split(' ')[-1] if reads else ''))
+    if not bad and not reads:
+        rep.ok('C10.R8', f.where, 'mutation summary of import_model over %d functions has no module-level root' % len(reach), got='%d events, all on the new Model' % len(evs))
 
 
 def check_reader(rep, R):
